@@ -39,9 +39,9 @@ def run(ctx):
            cells=[('ctx%d_fmt%d' % (c, f), ['ctx == %d' % c, 'fmt == %d' % f]) for c in range(8) for f in range(6)],
            timeout=tmo, twin_fn='tw_sized_choice', twin_pre=['ctx == 0'],
            desc='sized values: JSON by default, table iff format=html or Accept picks text/html, ValueError only for an unsupported explicit format'),
-        Ob('table', 'ob_table', 'ctx: int, doc: int, via_accept: bool, with_route: bool', pre=['0 <= ctx <= 7', '0 <= doc <= 5'],
+        Ob('table', 'ob_table', 'ctx: int, doc: int, via_accept: bool, with_route: bool', pre=['0 <= ctx <= 7', '0 <= doc <= 9'],
            cells=[('ctx%d' % c, ['ctx == %d' % c]) for c in range(8)], timeout=tmo, confirm='confirm_table',
-           desc='real TabularRender through render_basic on 8 tabular shapes x 6 endpoint docstring forms (none, empty, one line, multi-line with markup, link): 200 text/html table, cell text escaped'),
+           desc='real TabularRender through render_basic on 8 tabular shapes x 10 endpoints (functions with 6 docstring forms: none, empty, one line, multi-line with markup, link; an unhashable callable object, a bound method, a mutable dataclass with __call__, a documented callable object): 200 text/html table, cell text escaped'),
         Ob('json_roundtrip', 'ob_json_roundtrip', 'shape: int, a: int, b: int, flag: bool, streaming: bool, dev: bool',
            pre=['0 <= shape <= 10', '-11 <= a <= 11', '0 <= b <= 1'],
            cells=[('shape%d_%s_%s' % (s, st, dv), ['shape == %d' % s, 'streaming == %s' % st, 'dev == %s' % dv]) for s in range(11) for st in (False, True) for dv in (False, True)], timeout=tmo,
